@@ -850,6 +850,14 @@ func (vfs *OrefaFS) Rename(oldname, newname string) error {
 		defer oParent.mu.Unlock()
 	}
 
+	if nChildOk {
+		// The replaced file loses one of its names.
+		avfs.VerifBeforeLock(&nChild.mu, true)
+		nChild.mu.Lock()
+		nChild.remove()
+		nChild.mu.Unlock()
+	}
+
 	nParent.addChild(nFileName, oChild)
 
 	delete(oParent.children, oFileName)
